@@ -44,6 +44,19 @@ def run(ctx, replay):
                    msm_type=e["type"] in (1074, 1077, 1084, 1087, 1094, 1097, 1104, 1107, 1114, 1117, 1124, 1127, 1134, 1137),
                    short=e["len"] < 7)
         ctx.violation(rec, dict(event=e))
+    # the same cases in a 32-bit build (index and length arithmetic in int / uint is 32 bits wide there) and as a static
+    # binary in an empty root directory with an empty environment
+    variants = [] if replay else [("GOARCH=386", ctx.trace_32bit(["c07", cases], trace, timeout=1500)),
+                                  ("static binary in an empty root directory", ctx.trace_bare(["c07", cases], trace, timeout=1500))]
+    for build, tv in variants:
+        if not tv:
+            continue
+        evv = vlib.read_ndjson(tv)
+        resv = ctx.tlc_trace("C07_Trace", "C07_Trace.cfg", tv, timeout=900)
+        ctx.traces += 1
+        for i in resv["bad"]:
+            e = evv[i - 1]
+            ctx.violation(dict(kind="timeout" if e["timeout"] else "panic", fam=e["fam"], stage=e["stage"], build=build), dict(event=e, build=build))
     return ctx.finish(
         level="exploration",
         rule="case space enumerated by TLC from the guard model (C07_Cases.tla): for every mask shape (nSat, nSig) and family the payload "
